@@ -1,5 +1,7 @@
 open Datatypes
 
+val hd_error : 'a1 list -> 'a1 option
+
 val nth : nat -> 'a1 list -> 'a1 -> 'a1
 
 val nth_error : 'a1 list -> nat -> 'a1 option
